@@ -200,6 +200,19 @@ class _NPathSegment:
 
 
 _NPATH_IDENTIFIER_RE = re.compile(r"^[A-Za-z_][A-Za-z0-9_']*\Z")
+# Reserved words cannot be written bare as attribute names.
+_NIX_KEYWORDS = (
+    "assert",
+    "else",
+    "if",
+    "in",
+    "inherit",
+    "let",
+    "or",
+    "rec",
+    "then",
+    "with",
+)
 
 
 def _parse_npath(npath: str) -> list[_NPathSegment]:
@@ -274,7 +287,11 @@ def _parse_npath(npath: str) -> list[_NPathSegment]:
 
 def _format_attr_name(segment: _NPathSegment) -> str:
     """Format a segment as a binding name, quoting when needed."""
-    if segment.quoted or not _NPATH_IDENTIFIER_RE.match(segment.name):
+    if (
+        segment.quoted
+        or not _NPATH_IDENTIFIER_RE.match(segment.name)
+        or segment.name in _NIX_KEYWORDS
+    ):
         escaped = _escape_nix_string(segment.name, escape_interpolation=True)
         return f'"{escaped}"'
     return segment.name
